@@ -6,12 +6,14 @@ prop(
     level="exploration",
     design_ref="DESIGN.md 2/C02",
     needs_bin=True,
+    crash_is_violation=True,
     stages=[
         dict(run="^TestCorpus$", quick=dict(shards=8, timeout=900), thorough=dict(shards=8, timeout=1800)),
         dict(run="^TestPropNeverCrashes$",
              quick=dict(checks=48000, shards=16, timeout=900),
              thorough=dict(checks=2400000, shards=16, timeout=7200)),
-        dict(run="^$", fuzz="FuzzLint", thorough=dict(fuzztime="600s", timeout=1500)),
+        dict(run="^$", fuzz="FuzzLint", thorough=dict(fuzztime="420s", timeout=1500)),
+        dict(run="^$", fuzz="FuzzRuleFields", thorough=dict(fuzztime="420s", timeout=1500)),
         dict(run="^TestPropBinary$",
              quick=dict(checks=640, shards=16, timeout=900),
              thorough=dict(checks=32000, shards=16, timeout=7200)),
